@@ -35,7 +35,9 @@ REAL_STUB = {
 }
 ASSUMPTIONS = [
     "the real global reactor is not covered: wall-clock timing does not replay",
-    "ties (Deferred fires exactly at the timeout; stop requested at the completion instant) accept either result",
+    "ties (Deferred fires exactly at the timeout; an outside stop request at the completion instant) accept either result",
+    "a stop requested from inside the function itself (reactor.stop(), or a signal Twisted turns into a queued reactor.stop) precedes the completion of its callback chain: NoResultError, also for a synchronous function",
+    "a stop request that an earlier call left unprocessed in the reactor is not a request to stop this call",
     "a SIGINT is a stop request only when the pre-installed SIGINT handler is default_int_handler (otherwise Twisted leaves the user's handler in place)",
     "Spinner's own cancelled timeout call may or may not be reported as junk",
 ]
